@@ -824,6 +824,50 @@ SCENARIOS = {
 }
 
 
+def _cli_merge_s3(P, A, W, scen, inc, nonstrict):
+    """merge -b/-p[/-s]: the same collection as MosCollection.from_s3 with the same arguments."""
+    keys = []
+    for i, spec in enumerate(scen):
+        kind, _, mid = spec.partition('@')
+        mid = mid or str(10 + i)
+        ref_id = 'a'
+        if kind.endswith('!'):
+            kind, ref_id = kind[:-1], 'zz-unknown'
+        b = ro_builder(['a', 'b', 'c'], mid) if kind == 'roCreate' else msg_builder(kind, ref_id, mid, new_id='n%d' % i)
+        keys.append(W.doc(b, kind='s3', name='prefix/%02d-%s%s' % (i, kind, '.xml' if i == P.get('draft') else '.mos.xml')))
+    W.pages = [{'Contents': [{'Key': k} for k in keys[:2]]}, {'Contents': [{'Key': k} for k in keys[2:]]}]
+    suffix = P.get('suffix')
+
+    def lib():
+        kw = {'suffix': suffix} if suffix else {}
+        mc = W.mc.MosCollection.from_s3(bucket_name='bucket', prefix='prefix/', allow_incomplete=inc, **kw)
+        mc.merge(strict=not nonstrict)
+        return str(mc)
+    ref = call(lib, W.exc)
+    argv = ['merge', '-b', 'bucket', '-p', 'prefix/'] + (['-s', suffix] if suffix else []) + \
+        (['--incomplete'] if inc else []) + (['-n'] if nonstrict else [])
+    with Capture(W) as cap:
+        out = call(lambda: W.cli.main(argv), W.exc)
+    B.hit()
+    err = cap.err.getvalue()
+    sig = None
+    if out.raised:
+        sig = 'raised-' + type(out.exc).__name__
+    elif ref.raised:
+        if out.result != 2 or not err:
+            sig = 'error-but-exit-status-%r' % (out.result,)
+    else:
+        objs = [a[0] for a in cap.prints if len(a) == 1]
+        if out.result is not None:
+            sig = 'success-but-exit-status-%r' % (out.result,)
+        elif len(objs) != 1 or str(objs[0]) != ref.result:
+            sig = 'stdout-differs-from-library-result'
+    if B.Ctx.replay:
+        B.note(sig=sig, observed={'returned': out.result, 'stderr': err, 'raised': B.conc(out.exc)},
+               expected={'library': B.conc(ref.exc) if ref.raised else 'ok'}, argv=argv)
+    return sig is None
+
+
 def cli_merge_cell(P, A):
     """merge writes exactly the serialisation of the library's merged collection, honours --incomplete
     and --non-strict exactly as the library flags, exits 0 on success and 2 with a message on any error."""
@@ -833,6 +877,8 @@ def cli_merge_cell(P, A):
     sig = None
     with World() as W:
         paths = []
+        if P.get('s3'):
+            return _cli_merge_s3(P, A, W, scen, inc, nonstrict)
         for i, spec in enumerate(scen):
             if spec.startswith('='):
                 paths.append(paths[int(spec[1:])])      # the very same path listed again
